@@ -20,7 +20,12 @@ class _Cexptrk_Potential_Function(object):
     local_symbol_table = cexprtk.Symbol_Table({}, add_constants = True)
     parameter_names = self._potential_form_tuple.signature.parameter_names
     for pn in parameter_names:
-      local_symbol_table.variables[pn] = 1.0
+      try:
+        local_symbol_table.variables[pn] = 1.0
+      except KeyError as e:
+        # cexprtk refuses variables named like its constants (pi, epsilon, inf)
+        raise Potential_Form_Exception("Name clash for parameter '{}' of potential-form '{}': {}".format(
+          pn, self._potential_form_tuple.signature.label, e.args[0] if e.args else ""))
     return local_symbol_table
 
   def register_function(self, func):
@@ -28,7 +33,8 @@ class _Cexptrk_Potential_Function(object):
     label = func._potential_form_tuple.signature.label
     try:
       self._local_symbol_table.functions[label] = func
-    except cexprtk._exceptions.NameShadowException as e:
+    except (cexprtk._exceptions.NameShadowException, KeyError) as e:
+      # KeyError: cexprtk's report of a function named like a variable (parameter) or constant of this form
       msg = "Name clash for potential-form '{}': {}".format(label, str(e))
       raise Potential_Form_Exception(msg)
       
